@@ -219,3 +219,35 @@ def analysable(rng, n):
         out.append({"prog": {"types": [], "init": init, "guard": ("true",), "body": body},
                     "monomials": ["x", "y", "x**2", "x*y", "c"], "shape": shape})
     return out
+
+
+def guarded(rng, n):
+    """programs in the PARSED form: every assignment carries a condition and a default variable
+    (("gassign", x, cond, default, rhs)); what Assignment.evaluate implements and the parser never
+    produces.  Same finite fragment as above."""
+    out = []
+    for _ in range(n):
+        g = Gen(rng, 1)
+        g.use_b = False
+        init = [("gassign", v, ("true",), v, det(const(g.small()))) for v in g.vars]
+        g.max_random = rng.choice([2, 3, 4])
+
+        def gas():
+            x = rng.choice(g.vars)
+            c = g.cond() if rng.random() < 0.8 else ("true",)
+            d = rng.choice(g.vars) if rng.random() < 0.7 else x
+            return ("gassign", x, c, d, g.rhs())
+
+        def blk(depth, k):
+            b = []
+            for _ in range(k):
+                if depth < 1 and rng.random() < 0.25:
+                    nb = rng.choice([1, 2])
+                    b.append(("if", [(g.cond(), blk(depth + 1, rng.randint(1, 2))) for _ in range(nb)],
+                              blk(depth + 1, 1) if rng.random() < 0.5 else None))
+                else:
+                    b.append(gas())
+            return b
+        body = blk(0, rng.randint(2, 4))
+        out.append({"prog": {"init": init, "guard": g.guard(), "body": body}, "vars": list(g.vars)})
+    return out
